@@ -134,6 +134,26 @@ func buildPlan(id string, pinned map[string]string, tier string) *Plan {
 			"assembly E2 kernels on amd64 (e2_amd64.s): outside (C09)"}
 		p.Note = "Every tower operation under contract equals the product/sum computed by schoolbook convolution in R[X]/(X^k - nr) from the documented polynomials; sparse products equal the generic product applied to the operand with the documented zero/one coordinates; all alias partitions, including (where the contract says 'option interior') operands pointing into the receiver."
 		return p
+	case "C20":
+		p := &Plan{ID: id}
+		for _, pk := range polyPkgs("/repo") {
+			p.Units = append(p.Units, Unit{Pkg: pk, Tags: "", Groups: []string{"polynomial"}})
+		}
+		for _, pk := range iopPkgs("/repo") {
+			p.Units = append(p.Units, Unit{Pkg: pk, Tags: "", Groups: []string{"iop"}})
+		}
+		p.Trusted = []string{"ring layer over fr.Element (C01 contracts); Element.Exp is an uninterpreted power a^k at this layer",
+			"math/big.NewInt yields the mathematical integer of its argument (assumed contract of math/big)",
+			"fft.Generator(n) is an opaque call (its result is the generator the property speaks about: captured at the call site)",
+			"identical-slice aliasing is enumerated (option slicealias); partially overlapping slices are outside the model"}
+		p.Assumptions = []string{"Polynomial.Eval and MultiLin.Sum require a non-empty coefficient vector (they index the last / first entry unconditionally: an empty vector panics)",
+			"iop.Polynomial.GetCoeff: contract for the Regular layout, 0 <= shift <= 2^20, 0 <= i <= 2^40 (machine-integer range of i + rho*shift); a negative shift makes the Go remainder negative and panics (not repaired: recorded as an observation)",
+			"iop.Polynomial.Evaluate: size >= 0; explicit panics (fft.Generator refusing the size) are refusals, not results"}
+		p.NotCovered = []string{"evaluation in Lagrange bases and in the bit-reversed layout (polynomial.evaluate is under contract for Canonical/Regular only)",
+			"basis and layout conversions (FFT, bit reversal), ratios, quotient by the vanishing polynomial, expression evaluation, serialisation: not under contract",
+			"InterpolateOnRange, MultiLin.Evaluate / Eq / FoldParallel, pools: not under contract"}
+		p.Note = "Dense polynomials: Eval is Horner's value of sum p[j] X^j (recursive specification); Add, Sub, Scale, ScaleInPlace, Add/SubConstantInPlace, Set, Clone, Equal, SetZero, MultiLin.Fold / Add / Sum / Clone and EvalEq act coefficient-wise as their definitions say, with the result length prescribed, for all identical-slice aliasings of their operands. IOP polynomials: Evaluate passes exactly base * w^shift to the evaluation of the shared coefficient vector, for every integer shift, with w the generator of order Size and base = x (or x / coset in LagrangeCoset form); Clone / ShallowClone / NewPolynomial / Shift preserve every field of the object (shift, size, coset, form, coefficients); GetCoeff reads entry (i + (n/size) * shift) mod n in the Regular layout."
+		return p
 	case "C19":
 		p := &Plan{ID: id}
 		for _, pk := range fps {
